@@ -69,10 +69,16 @@ def streams(rng, tier):
 
 
 def _pick_expect(rng, c):
-    """mostly many_to_many; sometimes another expectation that the generated keys satisfy"""
-    if rng.random() < 0.25:
+    """mostly many_to_many; sometimes another expectation that the generated keys satisfy; sometimes ANY expectation,
+    the default included ("any_expect": when the call answers with a table, that table holds exactly the key-equal
+    pairs - whether the call should have been refused instead is C11's subject, not judged here)"""
+    r = rng.random()
+    if r < 0.25:
         ok = [e for e in J.EXPECTS + [None] if J.must_raise(c, c["how"], e) is None]
         c["expect"] = rng.choice(ok)
+    elif r < 0.40:
+        c["expect"] = rng.choice(J.EXPECTS + [None, None])
+        c["any_expect"] = True
 
 
 def observe(case):
@@ -86,7 +92,12 @@ def emit(case, obs):
 def oracle(case, obs):
     if "broken" in obs:
         return "observer: " + obs["broken"]
-    why = J.judge_call(case, obs, obs["res"], case["how"], case["expect"])
+    if case.get("any_expect"):
+        if "exc" in obs["res"]:
+            return J.inputs_unchanged(obs)
+        why = J.judge_call(case, obs, obs["res"], case["how"], "many_to_many")
+    else:
+        why = J.judge_call(case, obs, obs["res"], case["how"], case["expect"])
     return why or J.inputs_unchanged(obs)
 
 
